@@ -256,6 +256,94 @@ fn readback(ctx: &mut Ctx, p: &Program, ser_label: &'static str, bytes: &[u8], e
     }
 }
 
+/// Two builders of the same shape (class, method, id, attribute types, lengths) whose contents or
+/// credentials differ, sealed in lockstep: A gets its first seal, B gets its first seal, A its second ...
+/// Each must serialise to the reference bytes of its own program: nothing one builder computed while
+/// sealing may show up in the other.
+pub fn check_lockstep(ctx: &mut Ctx, p: &Program, rng: &mut crate::prng::Rng) {
+    if p.seals.is_empty() {
+        return;
+    }
+    ctx.eval();
+    let q = twin_of(p, rng);
+    check_lockstep_pair(ctx, p, &q);
+}
+
+/// A program of the same shape as `p` (class, method, id, attribute types and lengths, seals) whose
+/// raw values and / or credentials differ.
+pub fn twin_of(p: &Program, rng: &mut crate::prng::Rng) -> Program {
+    let mut q = p.clone();
+    let mut differs = false;
+    for a in q.attrs.iter_mut() {
+        if let AttrSpec::Raw(_, v) = a {
+            if !v.is_empty() && rng.chance(2, 3) {
+                let k = rng.usize(v.len());
+                v[k] ^= 1 + rng.below(255) as u8;
+                differs = true;
+            }
+        }
+    }
+    if !differs || rng.chance(1, 3) {
+        q.creds = match &p.creds {
+            RefCreds::Short(pw) => RefCreds::Short(format!("{pw}x")),
+            RefCreds::Long(u, r, pw) => RefCreds::Long(u.clone(), r.clone(), format!("{pw}x")),
+        };
+    }
+    q
+}
+
+pub fn check_lockstep_pair(ctx: &mut Ctx, p: &Program, q: &Program) {
+    let q = q.clone();
+    let w = || {
+        let mut v = p.to_json();
+        v["lockstep_twin"] = q.to_json();
+        v
+    };
+    let r = guard(|| {
+        let (oa, ob) = (make_objs(p)?, make_objs(&q)?);
+        let mut sp = p.clone();
+        sp.seals.clear();
+        let mut sq = q.clone();
+        sq.seals.clear();
+        let mut a = apply_program(&sp, &oa)?;
+        let mut b = apply_program(&sq, &ob)?;
+        let (ca, cb) = (imp::to_impl_creds(&p.creds), imp::to_impl_creds(&q.creds));
+        for s_ in &p.seals {
+            for (bld, c) in [(&mut a, &ca), (&mut b, &cb)] {
+                match s_ {
+                    SealSpec::Sha1 => bld.add_message_integrity(c, stun_types::message::IntegrityAlgorithm::Sha1).map_err(|e| format!("{e:?}"))?,
+                    SealSpec::Sha256 => bld.add_message_integrity(c, stun_types::message::IntegrityAlgorithm::Sha256).map_err(|e| format!("{e:?}"))?,
+                    SealSpec::Fp => bld.add_fingerprint().map_err(|e| format!("{e:?}"))?,
+                }
+            }
+        }
+        Ok::<_, String>((a.build(), b.build()))
+    });
+    match r {
+        Err(pn) => ctx.violation("C03", "build-no-panic", "MessageBuilder", "lockstep", w, "bytes".into(), format!("panic: {} at {}", pn.msg, pn.loc)),
+        Ok(Err(e)) => ctx.violation("C03", "in-limit-accepted", "MessageBuilder::add_*", "lockstep", w, "every operation of an in-limit program succeeds".into(), e),
+        Ok(Ok((ba, bb))) => {
+            for (which, got, prog) in [("first", &ba, p), ("second", &bb, &q)] {
+                let want = prog.reference_bytes();
+                if *got != want {
+                    let first = got.iter().zip(want.iter()).position(|(x, y)| x != y).unwrap_or(got.len().min(want.len()));
+                    ctx.violation(
+                        "C03",
+                        "matches-reference-encoding",
+                        "MessageBuilder::build",
+                        &format!("two-builders-sealed-in-lockstep,{which}"),
+                        w,
+                        format!("{} bytes: ..{}", want.len(), hex(&want[first.saturating_sub(8)..want.len().min(first + 40)])),
+                        format!("{} bytes: ..{} (first difference at offset {first})", got.len(), hex(&got[first.saturating_sub(8).min(got.len())..got.len().min(first + 40)])),
+                    );
+                    return;
+                }
+            }
+            ctx.count("lockstep-twins-sealed");
+        }
+    }
+}
+
 /// A program sized so that the total lands near the 16-bit boundary.
 fn gen_big_program(rng: &mut crate::prng::Rng) -> Program {
     let target = 65_400 + 4 * rng.usize(39); // <= 65 552
@@ -290,6 +378,9 @@ pub fn run(ctx: &mut Ctx) {
     for i in 0..n {
         let p = gen_program(&mut rng, 8, i % 16 == 15);
         check_program(ctx, &p);
+        if i % 8 == 3 {
+            check_lockstep(ctx, &p, &mut rng);
+        }
         if i < 3 {
             ctx.sample("program", || p.to_json());
         }
@@ -386,6 +477,7 @@ pub fn run(ctx: &mut Ctx) {
     ctx.require("many-attribute-programs", 16);
     ctx.require("typed-readback-equal", 10_000);
     ctx.require("typed-lookup-readback-equal", 10_000);
+    ctx.require("lockstep-twins-sealed", 5_000);
     ctx.require("sealed-validates", 5_000);
     ctx.require("seals:sha1+sha256+fingerprint", 500);
     ctx.require("programs-over-16-attributes", 200);
@@ -395,6 +487,10 @@ pub fn run(ctx: &mut Ctx) {
 
 pub fn replay(ctx: &mut Ctx, w: &Value) -> Result<(), String> {
     let p = Program::from_json(w).ok_or("bad program")?;
+    if let Some(q) = w.get("lockstep_twin").and_then(Program::from_json) {
+        check_lockstep_pair(ctx, &p, &q);
+        return Ok(());
+    }
     check_program(ctx, &p);
     Ok(())
 }
